@@ -176,6 +176,10 @@ func check(tb ev.TB, c wsim.Case) (labels []string, nontrivial bool) {
 			}
 		}
 		if late := p.At.Sub(open) - bt; late > lateSlack {
+			if c.StrictLateMs > 0 && late > time.Duration(c.StrictLateMs)*time.Millisecond {
+				fail("c08/held-beyond-batch-timeout", "message %v was accepted %v before the produce request carrying it reached the (healthy, idle) broker; BatchTimeout is %d ms and the batch was opened no later than the acceptance of its first message", id, p.At.Sub(open), c.BatchTimeoutMs)
+				return
+			}
 			ev.Inconclusive("late_flush")
 		}
 	}
@@ -191,6 +195,9 @@ func check(tb ev.TB, c wsim.Case) (labels []string, nontrivial bool) {
 	}
 	if c.Async && c.SettleMs > 0 {
 		labels = append(labels, "async_settle")
+	}
+	if c.StrictLateMs > 0 {
+		labels = append(labels, "steady_stream")
 	}
 	sort.Strings(labels)
 	return dedup(labels), nontrivial
@@ -284,6 +291,41 @@ func TestSizes(t *testing.T) {
 			}
 			// one submitter, so that batches are filled by exactly one call
 			c.Callers = c.Callers[:1]
+		case 2:
+			if caseNo%16 == 2 {
+				// steady stream: one submitter keeps appending to one partition with gaps shorter than BatchTimeout and never
+				// fills the batch; every message must still leave BatchTimeout after its batch was opened
+				c.Async = rapid.Bool().Draw(t, "streamAsync")
+				c.BatchTimeoutMs = rapid.IntRange(30, 80).Draw(t, "streamTimeout")
+				c.BatchSize, c.BatchBytes = 1000, 1<<20
+				c.Balancer = "first"
+				c.Faults = nil
+				c.StrictLateMs = 700
+				gap := c.BatchTimeoutMs * 1000 / rapid.IntRange(2, 5).Draw(t, "gapDiv")
+				n := 1600 * 1000 / gap
+				proto := c.Callers[0][0].Msgs[0]
+				proto.ValueSize, proto.ForceTopic = 16, ""
+				if !c.WriterTopic {
+					proto.Topic = c.Topics[0]
+				}
+				if c.Async {
+					var calls []wsim.Call
+					for i := 0; i < n; i++ {
+						calls = append(calls, wsim.Call{Msgs: []wsim.Msg{proto}, DelayUs: gap})
+					}
+					c.Callers = [][]wsim.Call{calls}
+					c.SettleMs = c.BatchTimeoutMs + 3000
+				} else {
+					// synchronous submitters block until their batch is sent: n submitters, the i-th starts after i gaps
+					c.Callers = nil
+					for i := 0; i < n && i < 300; i++ {
+						c.Callers = append(c.Callers, []wsim.Call{{Msgs: []wsim.Msg{proto}, DelayUs: gap * (i + 1)}})
+					}
+					c.CallTimeoutMs = 8000
+				}
+			} else {
+				c.Async = false
+			}
 		default:
 			c.Async = false
 		}
